@@ -216,13 +216,34 @@ func runC10(c *fw.Ctx) {
 	n := 80 + r.Intn(200)
 	e.points = gen.Points(r, n, span, e.specs[0].Res)
 	shift := base.Sub(gen.Base)
+	// every other cluster also gets points that lack partition keys: all keys of one table (such points
+	// have nothing to hash and must still end up together), or one key of several
+	keyless := 0
+	dropKeys := r.Intn(2) == 0
 	for i := range e.points {
 		e.points[i].TS = e.points[i].TS.Add(shift)
+		if dropKeys && r.Intn(6) == 0 {
+			keys := e.partBy[r.Intn(len(e.partBy))]
+			if len(keys) > 0 {
+				if r.Intn(3) == 0 {
+					delete(e.points[i].Dims, keys[r.Intn(len(keys))])
+				} else {
+					for _, k := range keys {
+						delete(e.points[i].Dims, k)
+					}
+				}
+				if len(e.points[i].Dims) == 0 {
+					e.points[i].Dims["m"] = "only"
+				}
+				keyless++
+			}
+		}
 		if err := e.insertBoth(i, &e.points[i]); err != nil {
 			c.Violate("c10-insert-error", "insert through leader failed: %v", err)
 			return
 		}
 	}
+	c.Obs("points_lacking_partition_keys", int64(keyless))
 	want := e.barriers(c, 0, base.Add(span))
 	if want == nil {
 		return
